@@ -28,9 +28,13 @@ def main():
     if a.input is not None:
         inp = json.loads(a.input)
         msg = run_one(oracle, inp)
+        if isinstance(msg, OracleCrash):
+            print(json.dumps({"found": False, "failing_input": None, "message": None, "tried": 1, "error": str(msg)}))
+            return
         print(json.dumps({"found": msg is not None, "failing_input": inp, "message": msg, "tried": 1}))
         return
     t0, tried = time.time(), 0
+    crashes = []
     try:
         hints = json.loads(a.hints)
     except Exception:
@@ -38,19 +42,30 @@ def main():
     for inp in oracle.candidates(hints):
         tried += 1
         msg = run_one(oracle, inp)
+        if isinstance(msg, OracleCrash):
+            # a crash of the oracle itself is the machinery's failure, never a finding
+            crashes.append(str(msg))
+            continue
         if msg is not None:
             print(json.dumps({"found": True, "failing_input": inp, "message": msg, "tried": tried}))
             return
         if time.time() - t0 > a.budget:
             break
-    print(json.dumps({"found": False, "failing_input": None, "message": None, "tried": tried}))
+    out = {"found": False, "failing_input": None, "message": None, "tried": tried}
+    if crashes:
+        out["error"] = "%d oracle crashes, first: %s" % (len(crashes), crashes[0])
+    print(json.dumps(out))
+
+
+class OracleCrash(str):
+    pass
 
 
 def run_one(oracle, inp):
     try:
         return oracle.check(inp)
     except Exception:
-        return "oracle crashed: " + traceback.format_exc()[-800:]
+        return OracleCrash("oracle crashed: " + traceback.format_exc()[-800:])
 
 
 if __name__ == "__main__":
